@@ -109,7 +109,11 @@ class Event:
         return '%s(%s)%s%s' % (self.kind(), ', '.join(fmt(a)[:60] for a in self.args[1:]), ' in-loop[%s]' % self.loop[0] if self.loop else '', ' if ' + ' & '.join(g) if g else '')
 
 
-def emission_events(lib, fn, emit_fns):
+class EvList(list):
+    alt = None
+
+
+def emission_events(lib, fn, emit_fns, split=None):
     """ordered list of Event for every call that hands the writer parameter to write_all or to a local emission helper"""
     w = writer_param(fn)
     if w is None:
@@ -129,11 +133,10 @@ def emission_events(lib, fn, emit_fns):
     sites.sort()
     paths = explore(fn, max_visits=1, havoc=True, limit=20000)
     events = []
-    for _, bid, t, callee in sites:
-        p = next((q for q in paths if bid in q.blocks[:-1] or (bid == q.blocks[-1] and q.end != 'cut')), None)
-        if p is None:
-            events.append(Event(fn, bid, callee, (), None, [], t.get('span')))
-            continue
+    def has_site(q, bid):
+        return bid in q.blocks[:-1] or (bid == q.blocks[-1] and q.end != 'cut')
+
+    def one_event(p, bid, t, callee, others_dec=None):
         k = p.blocks.index(bid)
         ce = p.sym.call_expr_at((k, 'T'))
         guards = []
@@ -142,15 +145,17 @@ def emission_events(lib, fn, emit_fns):
                 continue
             S = d[1]
             T = p.blocks[d[0] + 1]
-            others = [s for s in fn.succ(S) if s != T]
+            others = [s_ for s_ in fn.succ(S) if s_ != T]
             rets = set(fn.return_blocks())
-            # a guard: some alternative successor bypasses the site and still returns normally (not a panic edge)
-            if not any(bid not in rnb(s) and (rnb(s) & rets) for s in others):
-                continue
             e = d[2]
             if any(is_call(x, '::next') or is_call(x, 'Try>::branch') or is_call(x, 'Try::branch') for x in walk(e)):
                 continue
-            guards.append((e, d[3]))
+            # a guard: some alternative successor bypasses the site and still returns normally (not a panic edge) ...
+            bypass = any(bid not in rnb(s_) and (rnb(s_) & rets) for s_ in others)
+            # ... or the value handed to the emission depends on it (`write_all(&[if n == 256 { 1 } else { n as u8 }])`)
+            selects = others_dec is not None and any(norm(e) == oe and d[3] != ov for (oe, ov) in others_dec)
+            if bypass or selects:
+                guards.append((e, d[3]))
         inner = None
         for h, body in loops.items():
             if bid in body and (inner is None or len(body) < len(loops[inner])):
@@ -159,7 +164,30 @@ def emission_events(lib, fn, emit_fns):
         if inner is not None:
             src = iter_source(fn, inner)
             loop = (src[0], src[1], src[2]) if src else ('?', False, None)
-        events.append(Event(fn, bid, callee, ce[2], loop, guards, t.get('span')))
+        return Event(fn, bid, callee, ce[2], loop, guards, t.get('span'))
+
+    for _, bid, t, callee in sites:
+        cand = [q for q in paths if has_site(q, bid)]
+        if not cand:
+            events.append(Event(fn, bid, callee, (), None, [], t.get('span')))
+            continue
+        # distinct values handed to this site on different paths (a temporary computed by if / match before one shared call)
+        groups = {}
+        for q in (cand[::max(1, len(cand) // 400)] if (split and bid in split) else cand[:1]):
+            k = q.blocks.index(bid)
+            key = repr(norm(('tuple', tuple(a for a in q.sym.call_expr_at((k, 'T'))[2][1:]))))       # the value(s) handed over, not the writer
+            groups.setdefault(key, q)
+        if not split or bid not in split or len(groups) == 1 or len(groups) > 4:
+            events.append(one_event(cand[0], bid, t, callee))
+            continue
+        reps = list(groups.values())
+        for q in reps:
+            kq = q.blocks.index(bid)
+            od = [(norm(d[2]), d[3]) for r in reps if r is not q for d in r.decisions if d[0] < r.blocks.index(bid)]
+            events.append(one_event(q, bid, t, callee, od))
+    events = EvList(events)
+    if not split:
+        events.alt = lambda bids: emission_events(lib, fn, emit_fns, split=set(bids))
     return events
 
 
@@ -217,6 +245,16 @@ def check_any_outs(ctx, R, fn, l):
             continue
         v = p.sym.loc_value_at((l,), (len(p.blocks) - 2, 'T'))
         dec = [d for d in p.decisions if d[2][0] == 'havoc' and d[2][1] == (l,)]
+        if not dec and v[0] == 'bin' and v[1] == 'BitOr':
+            # non-short-circuit spelling `old |= !is_zero(t.out)`
+            sides = [v[2], v[3]]
+            old_ = [x for x in sides if x[0] == 'havoc' and x[1] == (l,)]
+            new_ = [x for x in sides if x[0] == 'un' and x[1] == 'Not' and is_call(x[2], 'Output::is_zero') and is_item_field(x[2][2][0], 'out')]
+            if old_ and new_:
+                step_ok = True
+                continue
+            step_ok = False
+            break
         # short-circuit `old || !is_zero(t.out)`: if old is true stays true; else becomes !is_zero(t.out)
         if dec and dec[-1][3] == 0:
             ok = v[0] == 'un' and v[1] == 'Not' and is_call(v[2], 'Output::is_zero') and is_item_field(v[2][2][0], 'out')
@@ -377,6 +415,27 @@ def promoted_bytes(f, idx):
 
 
 def match_events(ctx, RE, f, tag, evs, spec):
+    used, problems, missing = _match(evs, spec)
+    if (problems or missing) and getattr(evs, 'alt', None) is not None:
+        # second reading: one call site fed with a temporary computed by `if` / `match` just before it is one emission per value
+        evs2 = evs.alt({ev.bid for _, _, ev in problems})
+        u2, p2, m2 = _match(evs2, spec)
+        if not p2 and not m2:
+            used, problems, missing = u2, p2, m2
+    for kind, msg, ev in problems:
+        if kind == 'violation':
+            ctx.violation(RE, '%s:order' % tag, msg, fn=f, at=ev.span)
+        else:
+            ctx.undecided(RE, '%s:event:%s' % (tag, ev.kind()), msg, fn=f, at=ev.span)
+    for n in missing:
+        # definite even when some emission could not be classified: the section predicates include guard / width / direction, so a
+        # wrong guard shows up exactly as "unclassified emission + missing section" (downgrading this would lose such defects)
+        ctx.violation(RE, '%s:missing:%s' % (tag, n), 'the encoder never emits section "%s" in the form the layout requires (direction, width, guard)' % n, fn=f)
+    for n in used:
+        ctx.ok(RE, '%s:section:%s' % (tag, n), None, fn=f)
+
+
+def _match(evs, spec):
     i = 0
     used = []
     problems = []
@@ -407,17 +466,7 @@ def match_events(ctx, RE, f, tag, evs, spec):
         i = hit + 1
     names = [s[0] for s in spec]
     missing = [n for n in names if n not in used]
-    for kind, msg, ev in problems:
-        if kind == 'violation':
-            ctx.violation(RE, '%s:order' % tag, msg, fn=f, at=ev.span)
-        else:
-            ctx.undecided(RE, '%s:event:%s' % (tag, ev.kind()), msg, fn=f, at=ev.span)
-    for n in missing:
-        # definite even when some emission could not be classified: the section predicates include guard / width / direction, so a
-        # wrong guard shows up exactly as "unclassified emission + missing section" (downgrading this would lose such defects)
-        ctx.violation(RE, '%s:missing:%s' % (tag, n), 'the encoder never emits section "%s" in the form the layout requires (direction, width, guard)' % n, fn=f)
-    for n in used:
-        ctx.ok(RE, '%s:section:%s' % (tag, n), None, fn=f)
+    return used, problems, missing
 
 
 def index_table_rules(ctx, R, f, ev):
